@@ -128,11 +128,15 @@ module Coq_Pos :
 
   val mul : positive -> positive -> positive
 
+  val size_nat : positive -> nat
+
   val compare_cont : comparison -> positive -> positive -> comparison
 
   val compare : positive -> positive -> comparison
 
   val eqb : positive -> positive -> bool
+
+  val of_succ_nat : nat -> positive
  end
 
 module N :
@@ -155,6 +159,10 @@ module N :
 
   val ltb : n -> n -> bool
 
+  val max : n -> n -> n
+
+  val size_nat : n -> nat
+
   val pos_div_eucl : positive -> n -> n * n
 
   val div_eucl : n -> n -> n * n
@@ -162,11 +170,15 @@ module N :
   val div : n -> n -> n
 
   val modulo : n -> n -> n
+
+  val of_nat : nat -> n
  end
 
 module Z :
  sig
   val eqb : z -> z -> bool
+
+  val to_N : z -> n
  end
 
 type 'line exp = { opt : bool; mul0 : bool; mt : ('line -> bool) }
@@ -878,6 +890,247 @@ val is_plain : n list -> bool
 val yaml_scalar : n list -> n list
 
 val read_scalar : n list -> n list option
+
+val dec_aux : nat -> n -> n list -> n list
+
+val dec : n -> n list
+
+val decz : z -> n list
+
+type dline =
+| DMatched of n * bool * n list * n option
+| DUnmatched of n * bool * n list * n list
+| DUnexpected of (n * n list) list
+
+type result =
+| OSuccess
+| OMalformed of n * dline list
+| OExit of z * z
+| OInternal of n list
+| OTimeout
+| OSkipped
+
+type outcome = { o_location : n list option; o_title : n list;
+                 o_expr : n list; o_line : n; o_nexps : n; o_exit : z option;
+                 o_cram : bool; o_esc : mode; o_stdout : n list;
+                 o_stderr : n list; o_res : result }
+
+type rr =
+| RendOk of n list
+| RendErr
+| RendPanic
+
+val sP : n
+
+val join : n list -> n list list -> n list
+
+val split_on_lf : n list -> n list -> n list list
+
+val count_lf : n list -> n
+
+val shell_expression_lines : outcome -> n
+
+val ends_lf : n list -> bool
+
+val assure_nl : n list -> n list
+
+val written_text : written -> n list
+
+val p_OUT : n list
+
+val to_output_string : mode -> n list -> n list
+
+val h_STDOUT : n list
+
+val h_STDERR : n list
+
+val to_error_string : outcome -> n list
+
+val rtrim_ws : n list -> n list
+
+val blen : n list -> nat
+
+val split_at_byte : n list -> nat -> (n list * n list) option
+
+val vis : n -> n
+
+val space_start_index : n list -> nat
+
+val highlight : n list -> n list option
+
+val out_num : nat -> n option -> n list option
+
+val exp_num : nat -> n option -> bool -> n list option
+
+val bAR : n list
+
+val row : nat -> n option -> n option -> bool -> n -> n list -> n list option
+
+type pparams = { max_sur : nat; absolute : bool; summarize : bool }
+
+val is_err_line : dline -> bool
+
+val find_pos : ('a1 -> bool) -> 'a1 list -> nat option
+
+val next_err : dline list -> nat -> nat option
+
+val nOEOL_B : n list
+
+val dOTS : n list
+
+val unexpected_rows : nat -> mode -> n -> (n * n list) list -> n list option
+
+val pretty_lines :
+  pparams -> nat -> mode -> n -> dline list -> nat -> nat option -> dline
+  list -> n list option
+
+val line_base : pparams -> outcome -> n
+
+val width : pparams -> outcome -> n -> nat
+
+val pretty_malformed : pparams -> outcome -> n -> dline list -> n list option
+
+val sLASHES : n list
+
+val header_to_title : n -> n list -> n list
+
+val divider : n -> n list
+
+val s_LINE : n list
+
+val render_header : outcome -> n list
+
+val t_UNEXPECTED_EXIT : n list
+
+val t_EXPECTED : n list
+
+val t_ACTUAL : n list
+
+val t_TIMEOUT : n list
+
+val t_ERROR : n list
+
+val pretty_error : pparams -> outcome -> n list option
+
+val res_failure : result -> bool
+
+val res_skipped : result -> bool
+
+val res_success : result -> bool
+
+val pretty_section : pparams -> outcome -> n list option
+
+val pretty_sections : pparams -> outcome list -> n list option
+
+val text_eqb : n list -> n list -> bool
+
+val distinct_count : n list list -> n list list -> nat
+
+val locations : outcome list -> n list list
+
+val count_if : (result -> bool) -> outcome list -> n
+
+val t_RESULT : n list
+
+val t_DOCS : n list
+
+val t_TESTS : n list
+
+val t_SUCC : n list
+
+val t_FAILED : n list
+
+val t_SKIPPED : n list
+
+val pretty_summary : outcome list -> n list
+
+val render_pretty : pparams -> outcome list -> rr
+
+val text_ltb : n list -> n list -> bool
+
+val key_leb : outcome -> outcome -> bool
+
+val insert_sorted : outcome -> outcome list -> outcome list
+
+val stable_sort : outcome list -> outcome list
+
+val length_suffix : nat -> n list
+
+val t_EXITK : n list
+
+val t_MALK : n list
+
+val diff_header : n -> nat -> n -> nat -> n list -> n list -> n list
+
+val join_multiline : n list -> n list
+
+val line_prefix : outcome -> n list
+
+type hunk = { um_start : n option; um_lines : n list list;
+              ux_start : n option; ux_lines : n list list }
+
+val hunk_empty : hunk
+
+val in_rng : n -> n -> n -> bool
+
+val second3 : n -> n -> bool
+
+val second4 : n -> n -> bool
+
+val rEPL : n
+
+val utf8_lossy : n list -> n list
+
+val lossy_line : n list -> n list
+
+val emit_hunk : outcome -> n -> n list -> hunk -> n list
+
+val hunks_of : n -> hunk -> dline list -> hunk list
+
+val unified : outcome -> n -> n list -> dline list -> n list
+
+val t_INTERNAL : n list
+
+val t_PATH : n list
+
+val t_TITLE : n list
+
+val t_ERRORL : n list
+
+val diff_error : outcome -> n list
+
+val opt_text_eqb : n list option -> n list option -> bool
+
+val t_NEW : n list
+
+val diff_body : n list option -> outcome list -> n list
+
+val render_diff : outcome list -> rr
+
+val k_SUCCESS : n list
+
+val k_MALFORMED : n list
+
+val k_EXIT : n list
+
+val k_INTERNAL : n list
+
+val k_TIMEOUT : n list
+
+val k_SKIPPED : n list
+
+val kind_of : result -> n list
+
+val dkind : dline -> n
+
+type sentry = { se_location : n list option; se_kind : n list;
+                se_diff : n list }
+
+val structured : outcome list -> sentry list
+
+val dline_ok : n -> n -> dline -> bool
+
+val result_ok : outcome -> bool
 
 val make_exp : bool -> bool -> (nat -> bool) -> nat exp
 
